@@ -157,6 +157,8 @@ fn run_case(c: &Case, out: &mut dyn Write) {
     }
     let edges = krill::verif::lockdep::take_edges();
     // RRDP files on disk vs the publication server's state, once everything is idle
+    // staged changes must have an RRDP update task waiting for them (no lost wake-up)
+    let rrdp_task_present = s.task_present("update_rrdp");
     let content_serial = s.krill.repo_manager().repo_stats().map(|st| st.serial).unwrap_or(0);
     let staged_pending = s.krill.repo_manager().update_rrdp_if_needed().ok().map(|r| r.is_some()).unwrap_or(false);
     let content_serial_after = s.krill.repo_manager().repo_stats().map(|st| st.serial).unwrap_or(0);
@@ -205,6 +207,7 @@ fn run_case(c: &Case, out: &mut dyn Write) {
         "rets_same": rets_same, "ret_diffs": ret_diffs, "state_same": same, "diff": diff,
         "content_serial": content_serial, "content_serial_after_idle_update": content_serial_after,
         "staged_pending": staged_pending, "disk_serial": disk_serial, "written_serials": written_serials,
+        "rrdp_task_present": rrdp_task_present,
         "rp_problems": conc_view.get("rp").and_then(|r| r.get("problems")).cloned().unwrap_or(Value::Null),
     });
     writeln!(out, "{line} => {obs}").unwrap();
